@@ -9,6 +9,7 @@ import (
 	"fmt"
 	"os"
 	"runtime"
+	"sort"
 	"strconv"
 	"strings"
 	"sync"
@@ -489,7 +490,21 @@ func Run(run *mon.Run, cfg Config, checkFrames bool) Stats {
 			}
 		}(ci)
 	}
-	wg.Wait()
+	callersDone := make(chan struct{})
+	go func() { wg.Wait(); close(callersDone) }()
+	if drv.InBubble() {
+		<-callersDone // virtual time: a hang is a synctest deadlock, reported by drv.Bubble
+	} else if frames, snap, frozen := waitOrFrozen(callersDone, srv, &st, &inflight); frozen {
+		// Real time: nothing at all has happened for several inspection windows in a row (no call completed, the server
+		// neither received, executed, answered nor pushed anything) while calls are in flight, and callers are parked
+		// inside rueidis. The wall clock only triggers the inspections; what is judged is the frozen state itself.
+		run.Violation("hang", cfg.Name+"|"+strings.Join(frames, ";"), map[string]any{"config": cfg.String(), "calls_in_flight": inflight.Load(),
+			"frozen_counters": snap, "parked_in_rueidis": frames})
+		close(stop)
+		srv.Close() // releases whoever waits for the server; the callers of a wedged connection stay parked and are abandoned
+		client.Close()
+		return st
+	}
 	close(stop)
 	bg.Wait()
 	client.Close()
@@ -546,3 +561,45 @@ func rueidisSingleMultiplex(m int) int {
 	}
 	return m
 }
+
+// waitOrFrozen waits for the callers. Every window it compares a snapshot of everything that can move (completed calls,
+// issued commands, the server's receive / exec / reply / push counters, connections); after stallWindows identical
+// snapshots in a row with calls in flight it dumps the goroutines and returns the rueidis frames they are parked in.
+func waitOrFrozen(done chan struct{}, srv *fakeredis.Server, st *Stats, inflight *atomic.Int64) (frames []string, snap string, frozen bool) {
+	const window, stallWindows = 20 * time.Second, 4
+	prev, same := "", 0
+	for {
+		select {
+		case <-done:
+			return nil, "", false
+		case <-time.After(window):
+		}
+		cur := fmt.Sprintf("calls=%d cmds=%d ok=%d ctxerr=%d othererr=%d recv=%d exec=%d reply=%d push=%d accept=%d close=%d",
+			atomic.LoadInt64(&st.Calls), atomic.LoadInt64(&st.Cmds), atomic.LoadInt64(&st.OK), atomic.LoadInt64(&st.CtxErr), atomic.LoadInt64(&st.OtherErr),
+			srv.Counter("recv"), srv.Counter("exec"), srv.Counter("reply"), srv.Counter("push"), srv.Counter("accept"), srv.Counter("close"))
+		if cur == prev && inflight.Load() > 0 {
+			same++
+		} else {
+			same = 0
+		}
+		prev = cur
+		if same >= stallWindows {
+			buf := make([]byte, 64<<20)
+			buf = buf[:runtime.Stack(buf, true)]
+			seen := map[string]bool{}
+			for _, f := range drv.RueidisFrames(string(buf)) {
+				if !seen[f] {
+					seen[f] = true
+					frames = append(frames, f)
+				}
+			}
+			sort.Strings(frames)
+			if len(frames) == 0 {
+				same = 0 // nobody is parked inside rueidis: not a verdict, keep waiting (check.sh's watchdog ends the run)
+				continue
+			}
+			return frames, cur, true
+		}
+	}
+}
+
